@@ -46,6 +46,9 @@ CheckPrepared ==
   /\ LET o == O(tid) IN
      IF ~B!PreparedOK(o.n, LayoutOf(o), o.flat)
      THEN Reject("prepare_batches: states not in original order followed only by padding")
+     \* the same states presented as float rows with a fractional part (s + 1/2), read back as s (0 = padding)
+     ELSE IF ~B!PreparedOK(o.n, LayoutOf(o), o.flatf)
+     THEN Reject("prepare_batches: float-valued states are not preserved (values or dtype changed)")
      ELSE Advance("prepared")
 
 CheckUnbatch(k, from, to) ==
